@@ -131,3 +131,13 @@ def same_finder_instance(types, n: int) -> bool:
 
     fs = [conf.get_finder_for(Sid(T + ":" + "/".join(["*"] * n))) for T in types]
     return all(f is fs[0] for f in fs) or fail("different-finder-instances-for-sibling-types")
+
+
+def prefix_typed(type: str, s: str, key: str) -> bool:
+    """get_as(key) of a typed Sid must be typed (C03)."""
+    from spil import Sid
+
+    sid = Sid(type + ":" + s)
+    if not sid:
+        return True
+    return bool(sid.get_as(key)) or fail("prefix-of-typed-sid-is-untyped")
